@@ -629,7 +629,16 @@ def gen_simple_term(rng, depth=2, set_member=False):
     return ("t", [A("ok"), sub()])
 
 
-def fix_float(t):
+def fix_ints(t):
+    """an `i` node must fit an i64 in the text format; wider values are big integers"""
+    k = t[0]
+    if k == "i" and not -2**63 <= t[1] < 2**63:
+        n = t[1]
+        return ("g", n < 0, abs(n).to_bytes((abs(n).bit_length() + 7) // 8, "little"))
+    if k in ("l", "t"):
+        return (k, [fix_ints(x) for x in t[1]])
+    if k == "m":
+        return ("m", [(fix_ints(a), fix_ints(b)) for a, b in t[1]])
     return t
 
 
@@ -758,7 +767,7 @@ def run(ctx):
             kt = kind_text(w)
             cases.append("from %s %s" % (kt, etf.show(spec_term(w))))
             for _ in range(3):
-                cases.append("from %s %s" % (kt, etf.show(mutate_struct(rng, w))))
+                cases.append("from %s %s" % (kt, etf.show(fix_ints(mutate_struct(rng, w)))))
             if rng.random() < 0.2:
                 cases.append("from %s %s" % (rng.choice(KINDS), etf.show(spec_term(w))))
     cases.append("rt range %d %d %d" % (I64[0], I64[1], I64[0]))
